@@ -12,7 +12,7 @@ docs/notes/GEN.md, "Dialect sp").  Hand-written, core Lean, trusted like `RsSem.
   to the derived order of the element type — so the *key* the code sorts by is the element tuple the translated text builds;
   `BSearchOk`: on a strictly ascending slice `Ok(i)` names a position holding the key, `Err(_)` says that the key is absent).
 * (`Vec::resize` is `Rs.resize` of `RsSemBits.lean`), checked negation on signed integers, narrowing casts to signed integers.
-* **`std::collections::HashMap`** as far as `sparse.rs` uses it (`entry(k).or_default().push(v)`, `get(k)`): a finite map
+* **`std::collections::HashMap`** as far as `sparse.rs` uses it (`entry(k).or_default().push(v)`, `get(k)`, `match m.entry(k) { Vacant(v) => v.insert(x), Occupied(o) => … o.get_mut() … }`): a finite map
   represented by an association list with at most one entry per key; the iteration order is never observed by the translated
   functions.  Laws: `HMap.get_entryPush`.
 -/
@@ -82,6 +82,11 @@ def get : HMap κ ν → κ → Option ν
 def entryPush : HMap κ (List ν) → κ → ν → HMap κ (List ν)
   | [], k, x => [(k, [x])]
   | (k', v) :: r, k, x => if k' = k then (k', v ++ [x]) :: r else (k', v) :: entryPush r k x
+
+/-- `Entry::Vacant(v) => v.insert(x)`: a new key (the caller has seen `get m k = none`) -/
+def insertNew (m : HMap κ ν) (k : κ) (x : ν) : HMap κ ν := m ++ [(k, x)]
+/-- `Entry::Occupied(o) => *o.get_mut() = x`: the value of an existing key is replaced in place -/
+def update (m : HMap κ ν) (k : κ) (x : ν) : HMap κ ν := m.map (fun e => if e.1 = k then (e.1, x) else e)
 
 theorem get_entryPush (m : HMap κ (List ν)) (k k' : κ) (x : ν) :
     get (entryPush m k x) k' = if k' = k then some ((get m k).getD [] ++ [x]) else get m k' := by
